@@ -636,33 +636,91 @@ def rule_r7(chk, F, c):
         return False
 
     th = {"alloc": {}, "undo": {}}
-    for p, b in sorted(fns.items()):
-        for n in hirq.walk(b["body"]):
-            if n[0] != "if" or n[1][0] == "letx":
-                continue
-            cond = hirq.strip(n[1])
-            if not (hirq.is_node(cond) and cond[0] == "bin" and cond[1] in ("Lt", "Le")):
-                continue
-            rhs = hirq.strip(cond[3])
-            if not (hirq.is_node(rhs) and rhs[0] == "def" and rhs[1] == "const"):
-                continue
+
+    def bound_of(cond, truth):
+        """upper bound on the size implied by `cond == truth`: (constant name, offset) meaning size <= C + offset"""
+        cond = hirq.strip(cond)
+        if hirq.is_node(cond) and cond[0] == "un" and cond[1] == "Not":
+            return bound_of(cond[2], not truth)
+        if not (hirq.is_node(cond) and cond[0] == "bin" and cond[1] in ("Lt", "Le", "Gt", "Ge")):
+            return None
+        rhs = hirq.strip(cond[3])
+        if not (hirq.is_node(rhs) and rhs[0] == "def" and rhs[1] == "const"):
+            return None
+        op = cond[1]
+        if not truth:
+            op = {"Lt": "Ge", "Le": "Gt", "Gt": "Le", "Ge": "Lt"}[op]
+        if op == "Lt":
+            return (last(rhs[2]), -1)
+        if op == "Le":
+            return (last(rhs[2]), 0)
+        return None                                   # a lower bound says nothing about which objects use the buffer
+
+    def diverges(e):
+        return any(hirq.is_node(n) and n[0] in ("ret", "break", "continue") for n in hirq.walk(e))
+
+    def scan(p, stmts_or_expr, conds):
+        """walk a body keeping the conditions that hold; record the bounds under which each target is reached"""
+        e = stmts_or_expr
+        if not hirq.is_node(e):
+            return
+        if e[0] == "block":
+            held = list(conds)
+            for st in list(e[1]) + ([e[2]] if e[2] is not None else []):
+                scan(p, st, held)
+                st_ = hirq.strip(st)
+                if hirq.is_node(st_) and st_[0] == "if" and st_[1][0] != "letx" and st_[3] is None and diverges(st_[2]):
+                    held = held + [(st_[1], False)]          # `if c { …; return }` — afterwards c is false
+            return
+        if e[0] == "if" and e[1][0] != "letx":
+            scan(p, e[2], conds + [(e[1], True)])
+            if e[3] is not None:
+                scan(p, e[3], conds + [(e[1], False)])
+            return
+        callee = None
+        if e[0] == "mcall" and e[2]:
+            callee = e[2]
+        elif e[0] == "call" and hirq.is_node(e[2]) and e[2][:2] == ["def", "fn"]:
+            callee = e[2][2]
+        if callee is not None:
             for kind, target in (("alloc", bump), ("undo", rewind)):
-                if n[2] is not None and reaches(n[2], target):
-                    th[kind].setdefault(last(rhs[2]), []).append(p)
+                hit = callee == target or (callee in fns and reaches(fns[callee]["body"], target))
+                if hit:
+                    for (c_, t_) in conds:
+                        b_ = bound_of(c_, t_)
+                        if b_ is not None:
+                            th[kind].setdefault(b_, []).append(p)
+        for x in e[1:]:
+            if isinstance(x, list):
+                if x and isinstance(x[0], str):
+                    scan(p, x, conds)
+                else:
+                    for y in x:
+                        if isinstance(y, list) and y and isinstance(y[0], str):
+                            scan(p, y, conds)
+                        elif isinstance(y, list):
+                            for z in y:
+                                if isinstance(z, list) and z and isinstance(z[0], str):
+                                    scan(p, z, conds)
+
+    for p, b in sorted(fns.items()):
+        scan(p, b["body"], [])
     for kind in ("alloc", "undo"):
         for k, ps in sorted(th[kind].items()):
             for p in ps:
-                r.instance("%s:%s:%s" % (kind, p, k), sample={"branch_to": kind, "function": last(p), "threshold": k})
+                r.instance("%s:%s:%s%+d" % (kind, p, k[0], k[1]),
+                           sample={"branch_to": kind, "function": last(p), "size_at_most": "%s%+d" % k})
     r.floor("threshold branches leading to the buffer allocation", sum(len(v) for v in th["alloc"].values()), 2)
     r.floor("threshold branches leading to the buffer rewind", sum(len(v) for v in th["undo"].values()), 1)
     a, u = set(th["alloc"]), set(th["undo"])
     if a and u and a != u:
         for k in sorted(u - a):
             for p in th["undo"][k]:
-                r.violation("%s:rewind-under:%s:allocation-under:%s" % (p, k, "|".join(sorted(a))),
-                            "%s rewinds the worker's allocation buffer for objects below %s, but the buffer is only "
-                            "used for objects below %s: a mid-sized object that lost the forwarding race was allocated "
+                r.violation("%s:rewind-under:%s%+d:allocation-under:%s" % (
+                                p, k[0], k[1], "|".join("%s%+d" % x for x in sorted(a))),
+                            "%s rewinds the worker's allocation buffer for objects of size up to %s, but the buffer is "
+                            "only used for objects up to %s: a mid-sized object that lost the forwarding race was allocated "
                             "directly from the generation, and rewinding the buffer by its size moves `top` below "
                             "objects already copied in this collection (later copies overwrite them; with no buffer "
-                            "yet, `top` underflows)" % (last(p), k, "/".join(sorted(a))),
+                            "yet, `top` underflows)" % (last(p), "%s%+d" % k, "/".join("%s%+d" % x for x in sorted(a))),
                             "%s:%d" % (fns[p]["file"], fns[p]["line"]))
